@@ -113,6 +113,30 @@ func runC08(env *Env, data map[string]any) *Outcome {
 	if impl != model {
 		o.Findings = append(o.Findings, Finding{Kind: "K", What: "K.C08.blocks: block structure differs" + pmsgNote(pmsg), Impl: impl, Model: model})
 	}
+	// the translated Go source of ParseBlock / SignificantLines (Gen/GoTxt.lean) evaluated against the running code
+	if d := gsDriver(env); d != nil {
+		gimpl := impl
+		if pmsg == "" {
+			var sigs []string
+			safely(func() {
+				total, lines := 0, 0
+				for {
+					b, n := txt.ParseBlock(text[total:], lines)
+					if n == 0 || b == nil {
+						break
+					}
+					total += n
+					lines += len(b.Lines())
+					sg, hc, tc := b.SignificantLines()
+					sigs = append(sigs, fmt.Sprintf("%d/%d/%d", len(sg), hc, tc))
+				}
+			})
+			gimpl = impl + " sig=" + strings.Join(sigs, ",")
+		}
+		if gm := d.Ask("gs.blocks", hx(text)); gm != gimpl {
+			o.Findings = append(o.Findings, Finding{Kind: "K", What: "K.gosrc.blocks: the Go source of ParseBlock / SignificantLines as translated into Lean (Gen/GoTxt.lean) differs from the running code", Impl: gimpl, Model: gm})
+		}
+	}
 	// D: the property itself, evaluated on the implementation's own blocks.
 	var bs []txt.Block
 	dPanic := safely(func() {
